@@ -16,7 +16,7 @@ import (
 // where clauses agrees with database/query on random records, and the printer's output is read back as printed.
 func TestOwnQueryAgreesWithPortbase(t *testing.T) {
 	rng := rand.New(rand.NewSource(7))
-	g := &caseGen{r: &hxlib.Run{Rng: rng}, rng: rng}
+	g := &caseGen{r: &hxlib.Run{Rng: rng, Dist: map[string]int{}}, rng: rng}
 	for i := 0; i < 20000; i++ {
 		tree := ownTree(rng, 0)
 		text := "query hmap:k where " + tree.print(true)
@@ -36,8 +36,18 @@ func TestOwnQueryAgreesWithPortbase(t *testing.T) {
 		}
 		for j := 0; j < 8; j++ {
 			body, _ := json.Marshal(g.jsonObj(0))
+			spelled := j%2 == 1
+			if spelled {
+				body = g.spell(g.jsonObj(0)) // the same kind of object in another spelling
+				if !json.Valid(body) {
+					t.Fatalf("spelling is not JSON: %q", body)
+				}
+			}
 			wr, _ := record.NewWrapper("hmap:kx", nil, 'J', body)
 			m, ok := ownObject(body)
+			if !ok && spelled {
+				continue // duplicate member names: not judged
+			}
 			if !ok {
 				t.Fatalf("not an object: %s", body)
 			}
